@@ -929,6 +929,9 @@ func TestRelinkWithFailedCallee(t *testing.T) {
 					rk.Fail(t, "relink-failed", rp, "harness: first load: %v %v", errs1, crash)
 				}
 				libErr := impl.PlErr(errs1["lib.p"])
+				if libErr == nil {
+					rk.Fail(t, "relink-failed", rp, "the load error of lib.p is not a positioned script error: %v", errs1["lib.p"])
+				}
 				libText, libN := render(libErr), len(libErr.PosChain)
 				if rendered {
 					for _, e := range errs1 {
